@@ -22,10 +22,15 @@ def Q(fr):
 
 
 def rationalize(x):
-    """Exact-real reading of a double literal: the simplest rational that rounds to it (s3.2)."""
+    """Exact-real reading of a double literal: the simplest rational that rounds to it (s3.2).  Run-time folded
+    products of literals such as 3 * (1.0/5) land one or two ulps away from the intended 3/5: a rational with
+    denominator <= 1000 within 2 ulp is accepted as well."""
     fr = Fraction(x)
     if fr.denominator <= 2 ** 24:
         return fr
+    c = fr.limit_denominator(1000)
+    if abs(c - fr) <= abs(fr) * Fraction(1, 2 ** 51):
+        return c
     for lim in (10 ** 3, 10 ** 6, 10 ** 9):
         c = fr.limit_denominator(lim)
         if float(c) == x:
@@ -70,6 +75,8 @@ class Enc:
         self.dfac = {}
         self.sqrt_nodes = {}
         self.sqrt_opaque = sqrt_opaque
+        self.memo_nc = {}    # node values computed ignoring the cuts (consistency re-checks, chain-rule factors)
+        self.fdeps = {}      # var name -> [(Val partial, Val argument)] : the variable is a FUNCTION of the arguments with these partials (oracle functors)
 
     # ------------------------------------------------------------------ factors
     def var(self, name):
@@ -196,8 +203,8 @@ class Enc:
         return r
 
     # ------------------------------------------------------------------ DAG nodes
-    def node(self, i):
-        memo = self.memo
+    def node(self, i, cut=True):
+        memo = self.memo if cut else self.memo_nc
         if i in memo:
             return memo[i]
         nodes = self.dag.nodes
@@ -206,7 +213,7 @@ class Enc:
                 continue
             n = nodes[j]
             op = n[0]
-            if j in self.cuts:
+            if cut and j in self.cuts:
                 memo[j] = self.vvar(self.cuts[j])
             elif op == D.CONST:
                 x = D.hex2f(n[1])
@@ -339,6 +346,8 @@ class Enc:
         src = self.facsrc[k]
         if src[0] == 'var':
             r = VONE if src[1] == wrt else VZERO
+            for (g, arg) in self.fdeps.get(src[1], ()):
+                r = self.add(r, self.mul(g, self.dval(arg, wrt)))
         elif src[0] == 'sum':
             r = self.add(self.dval(src[1], wrt), self.dval(src[2], wrt), 1)
         else:
